@@ -35,6 +35,7 @@ type dexTxPre struct {
 	expectOK bool           // C07: the cancel must succeed
 	mmOld    []liqtypes.Order
 	liveOld  []liqtypes.Order
+	pairBatch map[uint64]uint64 // cancel-all: current batch id of every pair the signer has live orders in (before the message)
 	pool     *poolState
 	rewards  sdk.Coins
 	gaugeID  uint64
@@ -98,9 +99,13 @@ func (o *dexOracle) Before(w *World, ev *Event) {
 			p.expectOK = liveStatus(ord.Status) && ord.Orderer == p.signer.Bech() && m.Orderer == p.signer.Bech() && ord.BatchId < p.pair.CurrentBatchId
 		}
 	case *liqtypes.MsgCancelAllOrders:
+		p.pairBatch = map[uint64]uint64{}
 		for _, ord := range lk.GetOrdersByOrderer(ctx, m.AppId, p.signer.Addr) {
 			if liveStatus(ord.Status) {
 				p.liveOld = append(p.liveOld, ord)
+				if pr, ok := lk.GetPair(ctx, m.AppId, ord.PairId); ok {
+					p.pairBatch[ord.PairId] = pr.CurrentBatchId
+				}
 			}
 		}
 	case *liqtypes.MsgDepositAndFarm:
@@ -614,8 +619,27 @@ func (o *dexOracle) c07Tx(w *World, ev *Event) *Violation {
 	case *liqtypes.MsgCancelAllOrders:
 		book := newFlowBook()
 		n := 0
+		_ = m
+		inFilter := func(pair uint64) bool {
+			if len(m.PairIds) == 0 {
+				return true
+			}
+			for _, id := range m.PairIds {
+				if id == pair {
+					return true
+				}
+			}
+			return false
+		}
 		for _, old := range p.liveOld {
 			ord, found := lk.GetOrder(ctx, old.AppId, old.PairId, old.Id)
+			if found && ord.Status != liqtypes.OrderStatusCanceled && m.Orderer == p.signer.Bech() && inFilter(old.PairId) {
+				if cb, ok := p.pairBatch[old.PairId]; ok && old.BatchId < cb {
+					// the owner's cancel-all succeeded, yet an order that had left its placement batch is still live
+					return &Violation{Property: "C07", OracleID: "c07.cancel_all", Signature: "old_order_survives_cancel_all",
+						Detail: fmt.Sprintf("cancel-all by the owner (app %d, pair filter %v) succeeded but order %d of pair %d (batch %d, pair's current batch %d) is still %s", m.AppId, m.PairIds, old.Id, old.PairId, old.BatchId, cb, ord.Status)}
+				}
+			}
 			if !found || ord.Status != liqtypes.OrderStatusCanceled {
 				continue
 			}
